@@ -89,6 +89,14 @@ func TestC07(t *testing.T) {
 			hl = append(hl, h)
 			w.Subscribe(90, r)
 		}
+		if i%4 == 1 {
+			// a one-shot initialiser subscribed before the sequential handlers: when it has fired and
+			// left the registry, every handler behind it has moved up one place
+			w.Subscribe(90, &conc.Reg{T: 0, Class: 10, Once: true})
+			if i%8 == 1 {
+				w.Subscribe(90, &conc.Reg{T: 0, Class: 9, Once: true, Async: true})
+			}
+		}
 		add(rng.IntN(2) == 0, false)
 		add(true, rng.IntN(2) == 0)
 		filtered := i%5 == 2
